@@ -1,13 +1,13 @@
 SPECIFICATION MCSpec
 CONSTANTS
-  Author = {"a1", "a2"}
+  Author = {"a1"}
   Mallory = {"mx"}
   Log = {"l1"}
-  MaxSeq = 2
-  PrunePositions <- FirstAuthorPositions
-  MaxDeliver = 3
-  MaxInFlight = 2
-  ForgeBudget = 1
+  MaxSeq = 3
+  PrunePositions <- AllPositions
+  MaxDeliver = 7
+  MaxInFlight = 3
+  ForgeBudget = 0
   Classes <- AllClasses
   Defect_PruneAfterFailedIngest = FALSE
   Defect_PruneFlagSkipsLatestCheck = FALSE
